@@ -155,13 +155,14 @@ def top_bases(pkg):
     top = {}
     if pkg["module"]:
         for n, cs in pkg["module"]["classes"].items():
-            top[n] = list(cs[0]["frags"]) if cs else []
+            top[n] = list(cs[0]["bfrags"]) if cs else []
     return top
 
 
 def mro_hazards(pkg):
-    """classes whose sorted fragment bases list a fragment BEFORE another one that inherits from it: Python's C3
-    linearisation rejects `class X(A, B)` when B is a subclass of A (finding C08-MRO)."""
+    """classes whose listed fragment bases contain a fragment next to another one that inherits from it: Python's C3
+    linearisation rejects `class X(A, B)` when B is a subclass of A (former finding C08-MRO, fixed in /repo
+    959c464; C08_bases_no_ancestor proves the model never emits it, so this is a regression predicate)."""
     top = top_bases(pkg)
     out = []
     groups = [o["classes"] for o in pkg["ops"].values()]
@@ -169,7 +170,7 @@ def mro_hazards(pkg):
         groups += list(pkg["module"]["classes"].values())
     for cs in groups:
         for c in cs:
-            fs = c["frags"]
+            fs = c["bfrags"]
             for i, a in enumerate(fs):
                 for b in fs[i + 1:]:
                     if a in closure(top, top.get(b, [])):
@@ -228,7 +229,10 @@ def check_package(run, sc, g, enc, pkg, tag, rep, orders, complete, drive_calls)
             viol(f"K1b: classes of {mname}.py differ from the model: generator {classes} model {want}",
                  {"operation": name}, found=False)
         got_imp = sorted(imports.get("." + fmod, []))
-        want_imp = sorted(pascal(f) for f in m["mix"])
+        # autoflake removes imports nothing refers to: what stays are the fragments LISTED as bases
+        want_imp = sorted({pascal(f) for c in m["classes"] for f in c["bfrags"]})
+        if not {f for c in m["classes"] for f in c["bfrags"]} <= set(m["mix"]):
+            viol(f"K1b: model lists bases outside the fragments used as mixins in {mname}.py", found=False)
         if got_imp != want_imp:
             viol(f"K1b: {mname}.py imports {got_imp} from the fragments module, model says {want_imp}", found=False)
         for c in m["classes"]:
@@ -480,6 +484,18 @@ def run(ctx):
             scs.append(frag_scen.make(base + i))
         except RuntimeError:
             run.dist("skipped", "fragment generator gave up")
+    # regression case of the former finding C08-MRO (fixed in /repo 959c464)
+    defs = ["query Q { dog { ...B ...A } }", "fragment A on Dog { id }", "fragment B on Dog { bark ...A }"]
+    scs.insert(0, scenario.Scenario(seed=-8, sdl=frag_scen.SDL, queries="\n\n".join(defs) + "\n", config={},
+                                    features=("frags",), files={"mixins_impl.py": frag_scen.MIXINS_PY},
+                                    notes={"shape": "mro-regression", "n_frags": 2, "n_defs": 3, "defs": defs,
+                                           "mixin_directives": 0}))
+    defs2 = ["query Q { dog { ...C ...A } }", "fragment A on Dog { id }", "fragment B on Dog { bark ...A }",
+             "fragment C on Dog { name ...B }"]
+    scs.insert(1, scenario.Scenario(seed=-9, sdl=frag_scen.SDL, queries="\n\n".join(defs2) + "\n", config={},
+                                    features=("frags",), files={"mixins_impl.py": frag_scen.MIXINS_PY},
+                                    notes={"shape": "mro-regression", "n_frags": 3, "n_defs": 4, "defs": defs2,
+                                           "mixin_directives": 0}))
     n1 = run_stream(ctx, scs, "frags", with_variants=True)
     mains = []
     for i in range(n_main):
